@@ -194,6 +194,32 @@ class OptionRoundTrip(Engine):
             if isinstance(v, str) and kind == "unquoted_url_or_none_from_string":
                 why = "url-with-plus-or-percent" if ("+" in v or "%" in v) else "url-other"
             out.fail(f"{name}/url-transport-changed/{why}", f"value {v!r} -> {url!r} -> arrives as {arrived!r} -> {back!r}")
+        # the same value through the real container path: parsed options -> generate_cgi_parameters (defaults
+        # removed) -> dict_to_cgi_params -> a URL -> parsed options.  A value that differs from its default must
+        # arrive as the same value (an omitted parameter means "the default", which is a different meaning).
+        if arrived is not None and opt.full_name not in ("mode", "encrypted"):     # those two travel in the URL path
+            from dashlive.server.options.repository import OptionsRepository
+
+            def field(c):
+                holder = getattr(c, opt.prefix, None) if opt.prefix else c
+                return getattr(holder, opt.full_name, None) if holder is not None else None
+            try:
+                dflt = OptionsRepository.get_default_options()
+                c1 = OptionsRepository.convert_cgi_options({name: arrived}, defaults=dflt)
+                qs = c1.generate_cgi_parameters_string()
+                with env.app.test_request_context("/x" + qs):
+                    args = flask.request.args.to_dict()
+                c2 = OptionsRepository.convert_cgi_options(args, defaults=dflt)
+                a, b = field(c1), field(c2)
+            except Exception as exc:
+                out.fail(f"{name}/container-roundtrip-raises/{type(exc).__name__}/{vk}", f"value {v!r} ({arrived!r}): {exc!r}")
+                return out
+            out.cls("container:default" if name not in args else "container:non-default")
+            if not same(kind, a, b):
+                why2 = vk
+                if isinstance(a, str) and kind == "unquoted_url_or_none_from_string":
+                    why2 = "url-with-plus-or-percent" if ("+" in a or "%" in a) else "url-other"
+                out.fail(f"{name}/container-roundtrip-changed/{why2}", f"value {v!r}: parsed {a!r} -> {qs!r} -> parsed {b!r}")
         needs_escape = isinstance(text, str) and any(c in text for c in "+&=#% ")
         out.nontrivial = needs_escape or (isinstance(v, list) and len(v) >= 2)
         if needs_escape:
@@ -223,8 +249,8 @@ class ManifestToMedia(Engine):
         extra = st.fixed_dictionaries({}, optional={
             "playready__la_url": la, "marlin__la_url": la.map(lambda u: u.replace("https://", "ms3://")),
             "clearkey__la_url": la,
-            "failures": st.integers(0, 3).map(str),
-            "leeway": st.integers(0, 200).map(str),
+            "failures": st.one_of(st.integers(0, 3).map(str), st.just("none")),
+            "leeway": st.one_of(st.integers(0, 200).map(str), st.just("none")),
         })
         return st.fixed_dictionaries({
             "stream": st.sampled_from(["bbb", "tears"]),
